@@ -372,7 +372,7 @@ func (in *inst) observe() observation {
 	stable := in.dp.StableBlock()
 	head := in.dp.CurrentBlock()
 	fmt.Fprintf(&sb, "stable=%s | head=%s | blocks=", w.nameOf(stable), w.nameOf(head))
-	names := []string{"a1", "a2", "a2x", "a2m", "b1", "b2", "b3"}
+	names := []string{"a1", "a2", "a2x", "a2m", "a2t", "b1", "b2", "b3"}
 	type nb struct {
 		n string
 		h common.Hash
